@@ -814,6 +814,25 @@ U_LAMBDA_BODY = AuditUnit(
     "U-LAMBDA-BODY", "every site that prints an expression as a lambda body consults a lambda-body parenthesisation decision "
     "(a body containing an unparenthesised via / into / where re-parses as a different program)", audit_lambda_body_sites)
 
+def prep_bind(sc):
+    prep_values(sc)
+    prep_vecmap(sc)
+
+
+U_BIND2 = KaniUnit(
+    "U-BIND", "FunctionDef::call on lambdas with two parameters, every pair of kinds the grammar accepts (incl. a required "
+    "parameter after an optional / rest one) x 0..=3 arguments: no panic (a parameter left without an argument is an error); "
+    "required -> argument at its position, optional -> argument or null, rest -> fresh list of the remaining arguments in order; "
+    "call-time scope chain parameters > self name > captured scope > caller; the caller's scope is unchanged",
+    modules=[("functions.rs", "verif_bind.rs")],
+    harnesses=["u_bind_req_req", "u_bind_req_opt", "u_bind_req_rest", "u_bind_opt_opt", "u_bind_opt_rest", "u_bind_opt_req",
+               "u_bind_rest_req", "u_bind_scope_chain", "u_bind_own_name"],
+    functions=[("functions.rs", "call", "FunctionDef"), ("environment.rs", "get", "Environment")],
+    prepare=prep_bind, timeout=1500, complete=False, bound="2 parameters, 0..=3 arguments, fixed names",
+    assumptions=[STUB_ASSUMPTIONS[0], VECMAP_ASSUMPTION, CALL_STUBS[2], CALL_STUBS[3],
+                 "Kani stub (probe) for expressions::evaluate_ast: reads the parameter / captured / caller names out of the scope "
+                 "it is handed and returns a fixed value (callee contract, not callee body)"])
+
 U_PREC = KaniUnit(
     "U-PREC", "operator_info orders the 26 operators as the C10 table; ^ alone is right-associative; table rows "
     "pair each operator with its grammar rule",
@@ -925,7 +944,7 @@ prop("C11", [U_BINOP_SCALAR, U_BINOP_DISPATCH, U_BINOP_ROUTE, U_ORDERING, U_BCAS
       "string concatenation by + (format!/String)", "the value of ^ beyond 'a number' (f64::powf primitive)"],
      BINOP_STUBS)
 
-prop("C04", [U_ARITY, U_ARITY_LAMBDA], "other",
+prop("C04", [U_ARITY, U_ARITY_LAMBDA, U_BIND2], "other",
      "Arity classes and positional binding: can_accept for all usize (complete); get_arity/check_arity and the binding "
      "loop + call-time scope chain of FunctionDef::call for parameter lists of <= 3 parameters (bounded, labelled). "
      "What is captured (free-variable analysis) and call-site independence are NOT decided.",
